@@ -60,14 +60,18 @@ parser { "a"; e = aa; "b"; e = Bb; Hook_1(); case { "c" -> { if e == c_d { finis
     ("feat-signed", [], """out int{signed, size 1} a = -1; out int{signed, size 2} b = 0; out int{size 8} c = 0; out int{unsigned, size 4} d = 0;
 parser { foreach { /./ ; } do { a = [a - 100]; b = [b + a * 2]; d = [d - 1]; c = [c * 3 + d]; } }"""),
     # a loop left by a conditional break, directly followed by an append that can overflow (handler consumes)
-    ("feat-break-append", [], """out str[3] s; out int{unsigned, size 1} n = 0; hook h;
+    ("feat-break-append", [], """out str[2] s; out int{unsigned, size 1} n = 0; hook h;
 parser { loop { try { loop { /[ab]/; n = [n + 1]; if n == 2 { break; } } s += [65]; n = 0; } catch (outofspace) { h(); delete s; "x"; } } }"""),
+    ("feat-break-append-O3", ["-O3"], """out str[2] s; out int{unsigned, size 1} n = 0; hook h; hook g;
+parser { loop { try { s += /[AB]/; loop { /[ab]/; n = [n + 1]; if n == 1 { break; } } s += [48 + n]; g(); ","; } catch (outofspace) { h(); /[^;]*/; ";"; s = ""; n = 0; } } }"""),
     # any-byte matches whose byte is observed ($last, hook argument) - the byte must be reloaded although the state ignores it
     ("feat-anybyte", [], """out int m = 0; out str[4] t; hook h;
 parser { loop { "a"; /./; m = [$last]; h(); /[^b]/; h(); t += /./; ";"; delete t; } }"""),
     # foreach over yielding clauses with a char-append each-action that can overflow into a consuming handler
     ("feat-yield-foreach-append", ["-fyield-support"], """yieldcode LP, RP; out str[3] s; hook h;
 parser { loop { try { foreach { loop { case { "(" -> { yield LP; } ")" -> { yield RP; } /[ab]/ -> {} ";" -> { break; } } } } do { s += [$last]; } h(); delete s; } catch (outofspace) { h(); delete s; /[xy]/; } } }"""),
+    ("feat-yield-foreach-append-O3", ["-fyield-support", "-O3"], """yieldcode LP, RP, FULL; out str[3] s; hook h;
+parser { loop { try { foreach { case { "(" -> { yield LP; } ")" -> { yield RP; } /[ab]/ -> {} "." -> { h(); s = ""; } } } do { s += [$last]; } } catch (outofspace) { /./; yield FULL; s = ""; } } }"""),
     # action-only conditional finish followed by more statements
     ("feat-cond-finish", [], """out int{unsigned, size 1} n = 0; finishcode F; hook h;
 parser { loop { /[ab]/; n = [n + 1]; if n == 3 { finish F; } h(); "c"; if n == 2 && $last == 'c' { finish; } } }"""),
